@@ -1,10 +1,284 @@
 package main
 
 import (
-	_ "golang.org/x/tools/go/packages"
-	_ "golang.org/x/tools/go/ssa"
-	_ "golang.org/x/tools/go/ssa/ssautil"
-	_ "golang.org/x/tools/go/ast/astutil"
+	"encoding/json"
+	"flag"
+	"fmt"
+	"os"
+	"path/filepath"
+	"regexp"
+	"sort"
+	"strings"
+	"time"
+
+	"golang.org/x/tools/go/ssa"
 )
 
-func main() {}
+// Ctx is the shared verification context of one run.
+type Ctx struct {
+	P          *Program
+	S          *SpecSet
+	Frames     *FrameInfo
+	Spec       *SpecPrelude
+	PreDecl    map[string]bool
+	TrustedFns []string
+	AxiomNames []string
+}
+
+func specFiles(repo, verif string) []string {
+	var out []string
+	matches, _ := filepath.Glob(filepath.Join(verif, "engine", "stdlib", "*.spec"))
+	sort.Strings(matches)
+	out = append(out, matches...)
+	filepath.Walk(repo, func(p string, info os.FileInfo, err error) error {
+		if err != nil {
+			return nil
+		}
+		if info.IsDir() && (info.Name() == ".git" || info.Name() == "testdata") {
+			return filepath.SkipDir
+		}
+		if !info.IsDir() && info.Name() == "verif_contracts.go" {
+			out = append(out, p)
+		}
+		return nil
+	})
+	return out
+}
+
+func newCtx(repo, verif string) (*Ctx, error) {
+	P, err := loadProgram(repo)
+	if err != nil {
+		return nil, err
+	}
+	S := newSpecSet()
+	for _, f := range specFiles(repo, verif) {
+		if err := S.loadFile(f); err != nil {
+			return nil, err
+		}
+	}
+	c := &Ctx{P: P, S: S}
+	if err := c.buildSpecPrelude(); err != nil {
+		return nil, err
+	}
+	c.Frames = computeFrames(P, S)
+	return c, nil
+}
+
+// buildSpecPrelude declares uninterpreted spec functions and asserts the axioms.
+func (c *Ctx) buildSpecPrelude() (err error) {
+	defer func() {
+		if r := recover(); r != nil {
+			if e, ok := r.(error); ok {
+				err = e
+				return
+			}
+			panic(r)
+		}
+	}()
+	g := &Gen{P: c.P, S: c.S, heapSort: map[string]string{}, decl: map[string]string{}, globals: map[string]bool{}, typeIDs: map[string]int{},
+		strLits: map[string]string{}, cur: map[string]string{}, allMods: map[string]bool{}, blockMod: map[int]map[string]bool{}, oblSeen: map[string]int{}}
+	g.curBlk = -1
+	var sb strings.Builder
+	for _, name := range c.S.FnOrder {
+		fn := c.S.Fns[name]
+		if fn.Body != nil {
+			continue
+		}
+		var ps []string
+		for _, p := range fn.Params {
+			s, _ := specTypeOfName(c.P, p.Type)
+			ps = append(ps, string(s))
+		}
+		rs, _ := specTypeOfName(c.P, fn.Ret)
+		fmt.Fprintf(&sb, "(declare-fun spec.%s (%s) %s)\n", name, strings.Join(ps, " "), rs)
+		c.TrustedFns = append(c.TrustedFns, name)
+	}
+	env := &Env{g: g, vars: map[string]TV{}}
+	sp := &SpecPrelude{LitFacts: map[string]string{}}
+	symRe := regexp.MustCompile(`spec\.[A-Za-z0-9_]+`)
+	for _, a := range c.S.Axioms {
+		t := g.transBool(a.E, env)
+		n := a.Name
+		if n == "" {
+			n = a.Pos
+		}
+		c.AxiomNames = append(c.AxiomNames, n)
+		seen := map[string]bool{}
+		var syms []string
+		for _, m := range symRe.FindAllString(t, -1) {
+			if !seen[m] {
+				seen[m] = true
+				syms = append(syms, "("+m+" ")
+			}
+		}
+		if len(syms) == 0 {
+			return fmt.Errorf("%s: axiom mentions no uninterpreted spec function", a.Pos)
+		}
+		sp.Axioms = append(sp.Axioms, SpecAxiom{Name: n, Text: "(assert " + t + ")\n", Syms: syms})
+	}
+	sb.WriteString(g.declText())
+	for _, cs := range g.cons {
+		if cs.blk == -2 {
+			sp.LitFacts[cs.lit] = cs.text
+		} else {
+			fmt.Fprintf(&sb, "(assert %s)\n", cs.text)
+		}
+	}
+	sp.Decls = sb.String()
+	c.Spec = sp
+	c.PreDecl = map[string]bool{}
+	for n := range g.decl {
+		c.PreDecl[n] = true
+	}
+	return nil
+}
+
+func (c *Ctx) gen(fn *ssa.Function, prop string) (*Gen, error) {
+	g := newGen(c.P, c.S, prop, fn, c.Frames)
+	g.preDecl = c.PreDecl
+	if err := g.Generate(); err != nil {
+		return nil, err
+	}
+	return g, nil
+}
+
+func globMatch(pat, s string) bool {
+	re := "^" + strings.ReplaceAll(regexp.QuoteMeta(pat), `\*`, ".*") + "$"
+	ok, _ := regexp.MatchString(re, s)
+	return ok
+}
+
+func main() {
+	if len(os.Args) < 2 {
+		fmt.Fprintln(os.Stderr, "usage: goverif check|sweep|vc|list ...")
+		os.Exit(2)
+	}
+	switch os.Args[1] {
+	case "check":
+		os.Exit(cmdCheck(os.Args[2:]))
+	case "sweep":
+		os.Exit(cmdSweep(os.Args[2:]))
+	case "vc":
+		os.Exit(cmdVC(os.Args[2:]))
+	case "list":
+		os.Exit(cmdList(os.Args[2:]))
+	}
+	fmt.Fprintln(os.Stderr, "unknown command")
+	os.Exit(2)
+}
+
+func cmdList(args []string) int {
+	fs := flag.NewFlagSet("list", flag.ExitOnError)
+	repo := fs.String("repo", "/repo", "")
+	verif := fs.String("verif", "/verif", "")
+	fs.Parse(args)
+	c, err := newCtx(*repo, *verif)
+	if err != nil {
+		fmt.Fprintln(os.Stderr, err)
+		return 2
+	}
+	for _, fn := range c.P.RepoFns {
+		fmt.Println(c.P.KeyOf[fn])
+	}
+	return 0
+}
+
+// cmdSweep: debugging aid — run the safety sweep / all obligations of some functions.
+func cmdSweep(args []string) int {
+	fs := flag.NewFlagSet("sweep", flag.ExitOnError)
+	repo := fs.String("repo", "/repo", "")
+	verif := fs.String("verif", "/verif", "")
+	prop := fs.String("prop", "", "property filter for clauses")
+	timeout := fs.Int("timeout", 10, "")
+	all := fs.Bool("all", false, "print discharged obligations too")
+	fs.Parse(args)
+	c, err := newCtx(*repo, *verif)
+	if err != nil {
+		fmt.Fprintln(os.Stderr, err)
+		return 2
+	}
+	t0 := time.Now()
+	var jobs []job
+	work := filepath.Join(*verif, "work", "sweep")
+	os.RemoveAll(work)
+	n := 0
+	for _, fn := range c.P.RepoFns {
+		k := c.P.KeyOf[fn]
+		match := false
+		for _, pat := range fs.Args() {
+			if globMatch(pat, k) {
+				match = true
+			}
+		}
+		if !match {
+			continue
+		}
+		g, err := c.gen(fn, *prop)
+		if err != nil {
+			fmt.Println("GENERATION ERROR:", err)
+			continue
+		}
+		for _, w := range g.outOfSub {
+			fmt.Printf("out-of-subset %s: %s\n", k, w)
+		}
+		for _, o := range g.obls {
+			n++
+			jobs = append(jobs, job{o, o.Query(c.Spec, true), filepath.Join(work, fmt.Sprintf("%04d.smt2", n))})
+		}
+	}
+	solveAll(jobs, *timeout, false, 16)
+	bad := 0
+	for _, j := range jobs {
+		if j.o.Result != "unsat" || *all {
+			fmt.Printf("%-8s %-7s %5.2fs %s  (%s) %s\n", j.o.Result, j.o.Solver, j.o.TimeS, j.o.Name, j.o.SrcPos, filepath.Base(j.file))
+		}
+		if j.o.Result != "unsat" {
+			bad++
+		}
+	}
+	fmt.Printf("obligations=%d discharged=%d open=%d wall=%s\n", len(jobs), len(jobs)-bad, bad, time.Since(t0).Round(time.Millisecond))
+	return 0
+}
+
+func cmdVC(args []string) int {
+	fs := flag.NewFlagSet("vc", flag.ExitOnError)
+	repo := fs.String("repo", "/repo", "")
+	verif := fs.String("verif", "/verif", "")
+	prop := fs.String("prop", "", "")
+	fnKey := fs.String("fn", "", "")
+	obl := fs.String("obl", "", "substring of obligation name")
+	fs.Parse(args)
+	c, err := newCtx(*repo, *verif)
+	if err != nil {
+		fmt.Fprintln(os.Stderr, err)
+		return 2
+	}
+	fn := c.P.ByKey[*fnKey]
+	if fn == nil {
+		fmt.Fprintln(os.Stderr, "no such function")
+		return 2
+	}
+	g, err := c.gen(fn, *prop)
+	if err != nil {
+		fmt.Fprintln(os.Stderr, err)
+		return 2
+	}
+	for _, o := range g.obls {
+		if *obl == "" {
+			fmt.Println(o.Name)
+		} else if strings.Contains(o.Name, *obl) {
+			fmt.Println(o.Query(c.Spec, true))
+			return 0
+		}
+	}
+	return 0
+}
+
+func writeJSON(path string, v interface{}) error {
+	b, err := json.MarshalIndent(v, "", " ")
+	if err != nil {
+		return err
+	}
+	os.MkdirAll(filepath.Dir(path), 0o755)
+	return os.WriteFile(path, append(b, '\n'), 0o644)
+}
